@@ -83,9 +83,7 @@ class Engine(EngineBase, ExprMixin, CompMixin, CallMixin, FuncMixin, StmtMixin):
         locs = {}
         ptypes = self.param_types(fdef, con, cls)
         allp = fdef.args.posonlyargs + fdef.args.args + fdef.args.kwonlyargs
-        if fdef.args.vararg or fdef.args.kwarg:
-            if not (fdef.args.vararg and fdef.args.vararg.arg in con.sig):
-                pass
+        allp = allp + [a for a in (fdef.args.vararg, fdef.args.kwarg) if a is not None and a.arg in con.sig]
         self.input_vars = {}
         for a in allp:
             if a.arg == "cls" and "classmethod" in decos:
@@ -340,6 +338,8 @@ class Engine(EngineBase, ExprMixin, CompMixin, CallMixin, FuncMixin, StmtMixin):
     def verify_lemma(self, ident):
         lem = REG.lemmas[ident]
         self.cur_target, self.cur_prop = f"lemma:{ident}", lem.prop
+        if lem.note == "fp":
+            self.fp_mode = True          # floats in this lemma are IEEE doubles
         self.obligations = []
         st = State()
         locs = {}
